@@ -1,0 +1,31 @@
+//go:build verif
+
+package proto
+
+// Contracts for the deductive verification in /verif (comment-only file).
+// pkind / pnum / fkind are declared with the assumed protoreflect contracts.
+
+// the Go type protoreflect.Message.Set demands for a field of the given kind (it panics otherwise)
+//@ specfn isU32(k int) bool = k == protoreflect.Fixed32Kind || k == protoreflect.Uint32Kind
+//@ specfn isI32(k int) bool = k == protoreflect.Int32Kind || k == protoreflect.Sfixed32Kind || k == protoreflect.Sint32Kind
+//@ specfn isU64(k int) bool = k == protoreflect.Uint64Kind || k == protoreflect.Fixed64Kind
+//@ specfn isI64(k int) bool = k == protoreflect.Int64Kind || k == protoreflect.Sfixed64Kind || k == protoreflect.Sint64Kind
+//@ specfn wantKind(k int) int = ite(k == protoreflect.BoolKind, 1, ite(isI32(k), 2, ite(isU32(k), 3, ite(isI64(k), 4, ite(isU64(k), 5, ite(k == protoreflect.FloatKind, 6, ite(k == protoreflect.DoubleKind, 7, ite(k == protoreflect.StringKind, 8, ite(k == protoreflect.BytesKind, 9, ite(k == protoreflect.EnumKind, 10, 11))))))))))
+
+//@ func toProto
+//@   prop C20
+//@   ensures kind_agreement: err == nil ==> pkind(result0) == wantKind(fkind(fdesc))
+//@   ensures uint32_range: isU32(fkind(fdesc)) ==> (err == nil <==> (typeis(v, starlark.Int) && 0 <= val(as(v, starlark.Int)) && val(as(v, starlark.Int)) <= MAXU32)) && (err == nil ==> pnum(result0) == val(as(v, starlark.Int)))
+//@   ensures int32_range: isI32(fkind(fdesc)) ==> (err == nil <==> (typeis(v, starlark.Int) && MIN32 <= val(as(v, starlark.Int)) && val(as(v, starlark.Int)) <= MAX32)) && (err == nil ==> pnum(result0) == val(as(v, starlark.Int)))
+//@   ensures uint64_range: isU64(fkind(fdesc)) ==> (err == nil <==> (typeis(v, starlark.Int) && 0 <= val(as(v, starlark.Int)) && val(as(v, starlark.Int)) <= MAXU64)) && (err == nil ==> pnum(result0) == val(as(v, starlark.Int)))
+//@   ensures int64_range: isI64(fkind(fdesc)) ==> (err == nil <==> (typeis(v, starlark.Int) && MIN64 <= val(as(v, starlark.Int)) && val(as(v, starlark.Int)) <= MAX64)) && (err == nil ==> pnum(result0) == val(as(v, starlark.Int)))
+//@   ensures bool_exact_type: fkind(fdesc) == protoreflect.BoolKind ==> (err == nil <==> typeis(v, starlark.Bool))
+
+// A wrapper made for a value inside a message shares the message's frozen flag; a brand-new
+// flag is acceptable only if it is already set (the value is born frozen).
+//@ func toStarlark
+//@   prop C20
+//@   requires shared_flag: !calleralloc(frozen) || *frozen
+//@ func toStarlark1
+//@   prop C20
+//@   requires shared_flag: !calleralloc(frozen) || *frozen
